@@ -384,7 +384,7 @@ func (c *FnVC) loopHeader(li *loopInfo, reachName string) {
 	}
 	if li.spec != nil {
 		for i, inv := range li.spec.Invariants {
-			for j, cj := range splitConj(inv.Expr) {
+			for j, cj := range splitConjDeep(inv.Expr, 0) {
 				te, err := c.invEval(li, entryPhis, li.entryHeap).boolExpr(cj)
 				if err != nil {
 					c.errorf("%s: loop %d invariant %q: %v", c.fnName(), li.ordinal, inv.Text, err)
@@ -560,7 +560,7 @@ func (c *FnVC) loopLatch(li *loopInfo, b *ssa.BasicBlock) {
 	}
 	if li.spec != nil {
 		for i, inv := range li.spec.Invariants {
-			for j, cj := range splitConj(inv.Expr) {
+			for j, cj := range splitConjDeep(inv.Expr, 0) {
 				t, err := c.invEval(li, latchPhis, copyHeap(c.cur)).boolExpr(cj)
 				if err != nil {
 					c.errorf("%s: loop %d invariant %q: %v", c.fnName(), li.ordinal, inv.Text, err)
